@@ -597,12 +597,16 @@ func runC18(r *Run) {
 	r.Cases(960000, r.N(4, 16), 4, func(c *Case, rng *Rng) { c18RunQueues(r, c, c18RandomScenario(rng)) })
 
 	// ---- (f) start-up of the whole operator on a fake cluster: the burst of Synchronization executions ----
-	r.Cases(20, 3, 3, func(c *Case, rng *Rng) { c18RunStartup(r, c, c18StartupCorpus(c.Idx)) })
+	r.Cases(20, 5, 3, func(c *Case, rng *Rng) { c18RunStartup(r, c, c18StartupCorpus(c.Idx)) })
 	r.Cases(970000, r.N(3, 10), 3, func(c *Case, rng *Rng) { c18RunStartup(r, c, c18StartupRandom(rng)) })
 
 	// ---- (g) long combined series (150..450 events behind a waiting head task) and long intervals (11 s .. 24 h) ----
 	r.Cases(30, 5, 5, func(c *Case, rng *Rng) { c18RunLong(r, c, c18LongCorpus(c.Idx)) })
 	r.Cases(980000, r.N(4, 14), 4, func(c *Case, rng *Rng) { c18RunLong(r, c, c18LongRandom(rng)) })
+
+	// ---- (h) a hooks directory with several hooks whose names are near each other, loaded by the real hook manager ----
+	r.Cases(40, 3, 3, func(c *Case, rng *Rng) { c18RunSet(r, c, c18SetCorpus(c.Idx), rng) })
+	r.Cases(990000, r.N(40, 300), 8, func(c *Case, rng *Rng) { c18RunSet(r, c, c18SetRandom(rng, r.Thorough()), rng) })
 }
 
 // c18BoundOK is used only to choose between "check", "report" and "inconclusive" for the wall-clock
